@@ -8,5 +8,7 @@ CONSTANTS
   CallbackSubmits = FALSE
   UserShutdown = FALSE
   SpawnUnderLock = FALSE
+  MaxCrash = 0
+  RecheckAfterWait = TRUE
 INVARIANT IdsGrow
 INVARIANT NeverBroken
